@@ -10,7 +10,8 @@ RULE = ('Hypothesis: (kind, fields) over every registered request/response class
         'register lists 0..127, file-record lists fitting a PDU, MEI object lists, exception codes 0..255. Oracle: '
         'vlib/specpdu (independent codec written from the spec tables, self-checked against the spec worked examples): '
         '(a) fc+encode() of the pymodbus object built through its public constructor == spec bytes; (b) decoder.decode(spec '
-        'bytes) has the registered class and its public fields equal the wire fields (bits up to byte padding). '
+        'bytes) has the registered class and its public fields equal the wire fields (bits up to byte padding); in one case of '
+        'ten a custom message class is first registered on ANOTHER decoder object (same code / unassigned code / diagnostic sub-function). '
         'Non-trivial: variable-length kind with >=1 element, or a fixed kind with a field outside {0,1}; distinct by SHA-1.')
 ASSUMPTIONS = ['vlib/specpdu.py is the specification (its start-up self-check replays the worked examples of the spec)',
                'skip_encode payloads are caller-supplied bytes and out of scope']
@@ -18,7 +19,8 @@ BUDGET = {'quick': 12000, 'thorough': 40000}
 
 
 def strategy(tier):
-    return gens.message(spec_mode=True).map(lambda m: {'kind': m[0], 'fields': m[1]})
+    return st.tuples(gens.message(spec_mode=True), st.sampled_from([None] * 9 + ['same-fc', 'unassigned-fc', 'diag-sub'])).map(
+        lambda t: {'kind': t[0][0], 'fields': t[0][1], 'custom_on_other_decoder': t[1]})
 
 
 def sweeps(tier):
@@ -100,6 +102,19 @@ def sweeps(tier):
     return out
 
 
+def _register_custom(kind, fc, how):
+    from pymodbus.factory import ServerDecoder, ClientDecoder
+    from pymodbus.pdu import ModbusRequest, ModbusResponse
+    base = ModbusRequest if kind.startswith('req') else ModbusResponse
+    code = {'same-fc': fc & 0x7F, 'unassigned-fc': 0x41, 'diag-sub': 8}[how]
+    body = {'function_code': code, 'decode': lambda self, data: setattr(self, 'raw', data), 'encode': lambda self: b''}
+    if how == 'diag-sub':
+        body['sub_function_code'] = 0x0B
+    custom = type('VerifCustomMessage', (base,), body)
+    other = ServerDecoder() if kind.startswith('req') else ClientDecoder()
+    other.register(custom)
+
+
 def _same_up_to_object_order(got, f):
     try:
         k2, f2 = specpdu.decode('rsp', got)
@@ -162,6 +177,11 @@ def run_case(case):
                           _finding(kind, f, 'encode-raises')))
 
     # (b) decode direction
+    if case.get('custom_on_other_decoder'):
+        # the application registered a custom message class on ANOTHER decoder object (what custom_functions= does for one server):
+        # a decoder created afterwards must still know exactly the standard table
+        labels.append('custom-class-on-another-decoder')
+        _register_custom(kind, want[0], case['custom_on_other_decoder'])
     dec = ServerDecoder() if kind.startswith('req') else ClientDecoder()
     try:
         msg = dec.decode(want)
